@@ -70,8 +70,9 @@ def main():
     if valid:
         dst = VERIF / "seeded" / sid
         dst.mkdir(parents=True, exist_ok=True)
-        shutil.copy(src / "patch.diff", dst / "patch.diff")
-        shutil.copy(src / "demo.py", dst / "demo.py")
+        if src.resolve() != dst.resolve():
+            shutil.copy(src / "patch.diff", dst / "patch.diff")
+            shutil.copy(src / "demo.py", dst / "demo.py")
         meta.update({
             "breaks_property": meta.get("property"),
             "confirmed": {"baseline_tests_still_pass": True, "demo_exit_with_change": 1, "demo_exit_without_change": 0},
